@@ -85,6 +85,11 @@ CHECKS = {
    "differential property testing against f64 reference computations with stated norm-based tolerances; cross-implementation identity FIR == FFT; AVX build variant in the thorough tier",
    "FirFilter, FftFilter, FftFilterFloat, Hilbert, SinglePoleIirFilter, QuadratureDemod and FastFM run under drip schedules and Fir::filter/filter_n/filter_float, IirFilter and the low_pass designers are called directly; every output value and every output count is compared with an f64 evaluation of the defining formula within a tolerance stated up front (64 eps sum|t| max|x| direct, 16 eps log2(N) sum|t| max|x| FFT); the thorough tier repeats the run with a +avx,+sse3 build so the AVX kernel is the one measured.",
    "finite bounded inputs; fftw/fast-math/portable-simd feature builds not exercised; known finding: Blackman windows give asymmetric low_pass taps", "DESIGN.md §5 C11"),
+
+ "C14": ("E2 drip-feed driver + E3 reference models + E6", "exploration",
+   "round-trip / differential property testing of byte formats (independent LE/BE readers; containers built with generated member order; FIFO and loopback-TCP read segmentation with generated chunk sizes)",
+   "Codecs on raw bit patterns; FileSink->FileSource for five sample types under drip schedules; SigMF recording pairs and tar archives with members in generated order plus unrelated and malformed variants; AuEncode->AuDecode and the repository's .au recording; FileSource on a FIFO and TcpSource on loopback with the byte stream cut at generated points incl. 1-byte reads and splits inside a sample; all compared with independent readers of the same bytes.",
+   "FIFO/TCP reads are paced so that blocking reads always find data; AU header layout = the encoder's", "DESIGN.md §5 C14"),
 }
 
 NOT_YET = {}
